@@ -1,3 +1,6 @@
+import PT.Lemmas.MutRefs
+import PT.Props.C06
+import PT.Props.C07
 import PT.Lemmas.Writes
 import PT.Lemmas.Views
 import PT.Props.C16
@@ -61,5 +64,64 @@ theorem concurrent_eq_sequential (t : Tree w V) (w1 w2 ws : List (Nat × (V → 
 
 /-- non-vacuity: an interleaving exists for any two sequences -/
 example (a b : Nat × (Nat → Nat)) : Interleave [a] [b] [b, a] := .right (.left .nil)
+
+
+/-! ### references handed out by the `*_mut` set operations
+
+Items carry the slot of every node whose value they lend mutably (`l.1`, `r.1`, `v.1`).  `a`, `b`: the
+real nodes of the two operand views; `(a.slots ++ b.slots).Nodup` holds for two disjoint views of one
+map (`split`, `left`/`right`: `split_disjoint`) and for views of two different maps. -/
+
+open SetOps in
+/-- `union_mut`: every valued node of each operand is lent exactly once — left references are exactly
+the left operand's entries, right references the right operand's — and no node is lent twice -/
+theorem union_mut_refs {L R : Type} (a : Tree w L) (b : Tree w R) (hwa : HasWF a) (hwb : HasWF b) :
+    ((union a b).filterMap UItem.view).filterMap UV.lslot = a.slotEntries.map (·.1) ∧
+    ((union a b).filterMap UItem.view).filterMap UV.rslot = b.slotEntries.map (·.1) := by
+  rw [union_eq a b hwa hwb]
+  exact unionS_lslots _ _ _ _ _ (Nat.le_refl _)
+
+open SetOps in
+theorem union_mut_refs_distinct {L R : Type} (a : Tree w L) (b : Tree w R) (hwa : HasWF a) (hwb : HasWF b)
+    (hnd : (a.slots ++ b.slots).Nodup) :
+    (((union a b).filterMap UItem.view).filterMap UV.lslot ++
+      ((union a b).filterMap UItem.view).filterMap UV.rslot).Nodup := by
+  obtain ⟨h1, h2⟩ := union_mut_refs a b hwa hwb
+  rw [h1, h2]
+  exact ((slotEntries_slots_sublist a).append (slotEntries_slots_sublist b)).nodup hnd
+
+open SetOps in
+/-- `intersection_mut`: all references of all items, both sides, are pairwise distinct -/
+theorem intersection_mut_refs_distinct {L R : Type} (a : Tree w L) (b : Tree w R) (hwa : HasWF a) (hwb : HasWF b)
+    (hnd : (a.slots ++ b.slots).Nodup) :
+    ((intersection a b).map (fun it => it.l.1) ++ (intersection a b).map (fun it => it.r.1)).Nodup := by
+  have hna : a.slots.Nodup := (List.nodup_append.1 hnd).1
+  have hnb : b.slots.Nodup := (List.nodup_append.1 hnd).2.1
+  have hl : ((intersection a b).map (fun it => it.l.1)).Sublist (a.slotEntries.map (·.1)) := by
+    have := (PT.C06.intersection_order a b hwa hwb).map (·.1)
+    simpa [List.map_map, Function.comp_def] using this
+  have hr : ((intersection a b).map (fun it => it.r.1)).Nodup := by
+    rw [PT.C06.intersection_spec a b hwa hwb]
+    exact interS_rslots_nodup _ _ (slotEntries_keys_distinct hwa) (slotEntries_slots_nodup hnb)
+  refine append_nodup_of_sub (hl.nodup (slotEntries_slots_nodup hna)) hr ?_ ?_ hnd
+  · intro x hx
+    exact (slotEntries_slots_sublist a).subset (hl.subset hx)
+  · intro y hy
+    obtain ⟨it, hit, rfl⟩ := List.mem_map.1 hy
+    obtain ⟨_, pb, hb, _⟩ := PT.C06.intersection_sound a b hwa hwb it hit
+    exact slotEntries_slot_mem b _ hb
+
+open SetOps in
+/-- `difference_mut` / `covering_difference_mut`: each selected left entry is lent once -/
+theorem difference_mut_refs_distinct {L R : Type} (a : Tree w L) (b : Tree w R) (hwa : HasWF a) (hwb : HasWF b)
+    (hna : a.slots.Nodup) :
+    ((difference a b).map (fun it => it.v.1)).Nodup ∧ ((coveringDifference a b).map (fun it => it.v.1)).Nodup := by
+  constructor
+  · have := (PT.C07.difference_order a b hwa hwb).map (·.1)
+    simp only [List.map_map, Function.comp_def] at this
+    exact this.nodup (slotEntries_slots_nodup hna)
+  · have := (PT.C07.coveringDifference_order a b hwa hwb).map (·.1)
+    simp only [List.map_map, Function.comp_def] at this
+    exact this.nodup (slotEntries_slots_nodup hna)
 
 end PT.C14
